@@ -229,11 +229,17 @@ def sample_programs():
     return progs
 
 
-def check_emitted(rec, text, target, context, witness):
-    from vf.wrapmon import judge_emitted_text
+def check_emitted(rec, text, target, context, witness, mon=None):
+    from vf.wrapmon import judge_emitted_pieces, judge_emitted_text
     if target != "fortran":
         # the Python generator writes parts of the class (tables, boilerplate) without going through the
-        # wrapper; only the Fortran generator passes EVERY emitted line through wrap_line (get_code)
+        # wrapper; only the Fortran generator passes EVERY emitted line through wrap_line (get_code).  For Python
+        # the lines that did come out of the wrapper are looked up in the emitted text.
+        if mon is not None:
+            rec.count("emitted_modules_scanned_python")
+            for mech, why in judge_emitted_pieces(text, mon.pieces["python"], "\\")[:1]:
+                rec.violation(mech, f"[python, {context}] {why}", witness)
+            mon.pieces["python"].clear()
         return
     rec.count(f"emitted_modules_scanned_{target}")
     rec.count(f"emitted_lines_scanned_{target}", text.count("\n") + 1)
@@ -283,7 +289,7 @@ def run_generators(shard, rec):
     try:
         for name, dag, utm in sample_programs():
             before = rec.counters.get("wrap_contract_evaluations_python", 0)
-            check_emitted(rec, PythonCodeGenerator(class_name="M")(dag), "python", name, {"sample": name})
+            check_emitted(rec, PythonCodeGenerator(class_name="M")(dag), "python", name, {"sample": name}, mon)
             rec.count("generator_lines_python",
                       rec.counters.get("wrap_contract_evaluations_python", 0) - before)
             before = rec.counters.get("wrap_contract_evaluations_fortran", 0)
@@ -329,7 +335,7 @@ def run_generators(shard, rec):
                 check_emitted(rec, f.CodeGenerator("rep", user_type_map={})(dag), "fortran",
                               f"repeated-statement:{order}", wit)
                 check_emitted(rec, PythonCodeGenerator(class_name="M")(dag), "python",
-                              f"repeated-statement:{order}", wit)
+                              f"repeated-statement:{order}", wit, mon)
                 mon.flush(rec, context="generator:repeated-statement")
                 rec.case(["generator-repeated", order, depth, rep, shard["seed"]])
         for i in range(shard.get("nprog", 40)):
@@ -339,7 +345,7 @@ def run_generators(shard, rec):
                 text = PythonCodeGenerator(class_name="M")(prog.build(script))
             except Exception:
                 continue
-            check_emitted(rec, text, "python", "G_prog-py", {"gprog": "py", "i": i, "seed": shard["seed"]})
+            check_emitted(rec, text, "python", "G_prog-py", {"gprog": "py", "i": i, "seed": shard["seed"]}, mon)
             rec.count("generator_lines_python", rec.counters.get("wrap_contract_evaluations_python", 0) - before)
             mon.flush(rec, context="generator:G_prog-py")
             rec.case(["generator-gprog-py", i, shard["seed"]])
